@@ -7,10 +7,11 @@
    [mapply R r] = R r, D(R)[a,a'] = coefficient of u^a' in (R^T u)^a, Jsum J (rot_expand R a) = sum_a' D(R)[a,a'] J a',
    [rep_mat R a' a] = D(R)[a,a'] collected over [default_comps l]; [orthogonal R] is R R^T = R^T R = 1, nothing is
    assumed about det R. *)
-From Coq Require Import List Arith ZArith QArith Qcanon.
-From GB Require Import Base.Field Base.FNum Base.Tables Gauss.Moment1D Gauss.Poly3 Model.Shell Model.MomentInt
-  Model.Overlap Model.Eval Proofs.EvalP Proofs.SameFunP Proofs.RigidP Proofs.RotationP Proofs.RotationBlockP
-  Proofs.RotationEvalP.
+From Coq Require Import List Arith.
+From GB Require Import Base.Field Base.FNum Base.Tables Gauss.Moment1D Gauss.SPoly Gauss.Poly3 Gauss.Wick2D Gauss.Poly6
+  Model.Shell Model.MomentInt Model.Overlap Model.Eval Model.TwoElec Proofs.EvalP Proofs.SameFunP Proofs.TwoElecP
+  Proofs.RigidP Proofs.RotationP Proofs.RotationBlockP Proofs.RotationMoreP Proofs.RotationEvalP Proofs.RotationEriP
+  Proofs.RotationEriBlockP.
 Import ListNotations.
 
 (* ==================================================================================================== *)
@@ -120,3 +121,307 @@ Theorem C12_rotation3_eval_hypotheses_satisfiable :
     /\ orthogonal K R1 /\ orthogonal K R2 /\ s_comps s = [].
 Proof. exact eval_rotation_hypotheses_satisfiable. Qed.
 Print Assumptions C12_rotation3_eval_hypotheses_satisfiable.
+
+(* ==================================================================================================== *)
+(* 2. the six-dimensional Gaussian moment functional (Gauss/Poly6.v): electron 1 -> y1 in R^3, electron 2 -> y2 in R^3,
+      covariance [[s11 I, s12 I], [s12 I, s22 I]], means (a1, c1); six-variable polynomials as monomial lists built as
+      tensor products f(y1) g(y2) of the three-variable ones of Poly3.v *)
+
+(* Stein rule of the six-dimensional functional, electron-1 variables *)
+Theorem C12_rotation3_E6_stein_electron1 :
+  forall (F : Type) (K : Fops F),
+  is_field K ->
+  forall (a1 c1 : axis -> F) (s11 s12 s22 : F) (i : axis) (f : poly6),
+  E6 K a1 c1 s11 s12 s22 (mulv6 E1 i f) =
+  fadd K (fadd K (fmul K (a1 i) (E6 K a1 c1 s11 s12 s22 f)) (fmul K s11 (E6 K a1 c1 s11 s12 s22 (dv6 K E1 i f))))
+    (fmul K s12 (E6 K a1 c1 s11 s12 s22 (dv6 K E2 i f))).
+Proof. exact (@stein6_1). Qed.
+Print Assumptions C12_rotation3_E6_stein_electron1.
+
+(* Stein rule, electron-2 variables *)
+Theorem C12_rotation3_E6_stein_electron2 :
+  forall (F : Type) (K : Fops F),
+  is_field K ->
+  forall (a1 c1 : axis -> F) (s11 s12 s22 : F) (i : axis) (f : poly6),
+  E6 K a1 c1 s11 s12 s22 (mulv6 E2 i f) =
+  fadd K (fadd K (fmul K (c1 i) (E6 K a1 c1 s11 s12 s22 f)) (fmul K s12 (E6 K a1 c1 s11 s12 s22 (dv6 K E1 i f))))
+    (fmul K s22 (E6 K a1 c1 s11 s12 s22 (dv6 K E2 i f))).
+Proof. exact (@stein6_2). Qed.
+Print Assumptions C12_rotation3_E6_stein_electron2.
+
+(* a function on six-variable monomials obeying the six Wick/Stein recurrences is c0 * M6 *)
+Theorem C12_rotation3_E6_moments_unique :
+  forall (F : Type) (K : Fops F),
+  is_field K ->
+  forall (a1 c1 : axis -> F) (s11 s12 s22 : F) (J : mon6 -> F) (c0 : F),
+  stein6_laws K a1 c1 s11 s12 s22 c0 J -> forall m : mon6, J m = fmul K c0 (M6 K a1 c1 s11 s12 s22 m).
+Proof. exact (@moments6_unique). Qed.
+Print Assumptions C12_rotation3_E6_moments_unique.
+
+(* a linear functional obeying the six Stein rules on monomials is I(1) * E6 *)
+Theorem C12_rotation3_E6_uniqueness :
+  forall (F : Type) (K : Fops F),
+  is_field K ->
+  forall (a1 c1 : axis -> F) (s11 s12 s22 : F) (I : poly6 -> F),
+  plinear6 K I ->
+  stein6_on_monomials K a1 c1 s11 s12 s22 I -> forall f : poly6, I f = fmul K (I (one6 K)) (E6 K a1 c1 s11 s12 s22 f).
+Proof. exact (@gauss6_uniqueness). Qed.
+Print Assumptions C12_rotation3_E6_uniqueness.
+
+(* (f (x) g) o (Q + Q) == (f o Q) (x) (g o Q) *)
+Theorem C12_rotation3_subst6_tensor :
+  forall (F : Type) (K : Fops F),
+  is_field K -> forall (Q : mat) (f g : poly3), peq6 K (subst6 K Q (tens K f g)) (tens K (subst K Q f) (subst K Q g)).
+Proof. exact (@subst6_tens). Qed.
+Print Assumptions C12_rotation3_subst6_tensor.
+
+(* THE SIX-DIMENSIONAL FUNCTIONAL IS COVARIANT UNDER THE SIMULTANEOUS ORTHOGONAL SUBSTITUTION (means rotate) *)
+Theorem C12_rotation3_E6_rotation_covariant :
+  forall (F : Type) (K : Fops F),
+  is_field K ->
+  forall (Q : mat) (a1 c1 : axis -> F) (s11 s12 s22 : F),
+  orth_rows K Q ->
+  forall f : poly6,
+  E6 K a1 c1 s11 s12 s22 (subst6 K Q f) =
+  E6 K (fun i : axis => dot K (Q i) a1) (fun i : axis => dot K (Q i) c1) s11 s12 s22 f.
+Proof. exact (@E6_subst6_orth). Qed.
+Print Assumptions C12_rotation3_E6_rotation_covariant.
+
+(* E6 of ((y1+cB)^b y1^a) (x) ((y2+cD)^d y2^c) is the product over the axes of the four-index Wick quantities *)
+Theorem C12_rotation3_E6_factorises :
+  forall (F : Type) (K : Fops F),
+  is_field K ->
+  forall (a1 c1 : axis -> F) (s11 s12 s22 : F) (cB cD : axis -> F) (a b c d : mon),
+  E6 K a1 c1 s11 s12 s22 (tens K (smono K cB b (mono3 K a)) (smono K cD d (mono3 K c))) =
+  fmul K
+    (fmul K
+       (shf K (cB AX) (fun a' : nat => shf K (cD AX) (Mw K a1 c1 s11 s12 s22 AX a') (expo AX d) (expo AX c)) 
+          (expo AX b) (expo AX a))
+       (shf K (cB AY) (fun a' : nat => shf K (cD AY) (Mw K a1 c1 s11 s12 s22 AY a') (expo AY d) (expo AY c)) 
+          (expo AY b) (expo AY a)))
+    (shf K (cB AZ) (fun a' : nat => shf K (cD AZ) (Mw K a1 c1 s11 s12 s22 AZ a') (expo AZ d) (expo AZ c)) 
+       (expo AZ b) (expo AZ a)).
+Proof. exact (@E6_tens_smono). Qed.
+Print Assumptions C12_rotation3_E6_factorises.
+
+(* ==================================================================================================== *)
+(* 3. electron repulsion: the specification of a primitive quartet and every entry of the block *)
+
+(* the exact integrand of a primitive quartet at s (product over the axes of TwoElecP.M4) is E6 of the product polynomial *)
+Theorem C12_rotation3_eri_integrand_is_E6 :
+  forall (F : Type) (K : Fops F),
+  is_field K ->
+  forall (alpha beta gamma delta : F) (A B C D : axis -> F) (s : F) (a b c d : Shell.comp),
+  M4prod K alpha beta gamma delta A B C D s a b c d =
+  E6 K (mean1v K alpha beta gamma delta A B C D s) (mean2v K alpha beta gamma delta A B C D s)
+    (sig11 K (fadd K alpha beta) (fadd K gamma delta) s) (sig12 K (fadd K alpha beta) (fadd K gamma delta) s)
+    (sig22 K (fadd K alpha beta) (fadd K gamma delta) s) (quartet_poly K (dvec K A B) (dvec K C D) a b c d).
+Proof. exact (@M4_product_is_E6). Qed.
+Print Assumptions C12_rotation3_eri_integrand_is_E6.
+
+(* FOR EVERY s the integrand of the rotated quartet, D-contracted on the four indices, is that of the original one *)
+Theorem C12_rotation3_eri_integrand_covariant :
+  forall (F : Type) (K : Fops F),
+  is_field K ->
+  forall alpha beta gamma delta : F,
+  fadd K alpha beta <> f0 K ->
+  fadd K gamma delta <> f0 K ->
+  fadd K (fadd K alpha beta) (fadd K gamma delta) <> f0 K ->
+  forall (R : mat) (A B C D : axis -> F) (s : F) (a b c d : Shell.comp),
+  orth_rows K (transpose R) ->
+  Jsum K
+    (fun a' : mon =>
+     Jsum K
+       (fun b' : mon =>
+        Jsum K
+          (fun c' : mon =>
+           Jsum K
+             (fun d' : mon =>
+              M4prod K alpha beta gamma delta (RotationMoreP.rotv K R A) (RotationMoreP.rotv K R B)
+                (RotationMoreP.rotv K R C) (RotationMoreP.rotv K R D) s a' b' c' d') (subst_mon K (transpose R) d))
+          (subst_mon K (transpose R) c)) (subst_mon K (transpose R) b)) (subst_mon K (transpose R) a) =
+  M4prod K alpha beta gamma delta A B C D s a b c d.
+Proof. exact (@eri_quartet_rotation_covariant_eval). Qed.
+Print Assumptions C12_rotation3_eri_integrand_covariant.
+
+(* the values of the s-polynomial R4c are the M4 products *)
+Theorem C12_rotation3_eri_R4c_eval :
+  forall (F : Type) (K : Fops F),
+  is_field K ->
+  forall alpha beta gamma delta : F,
+  fadd K alpha beta <> f0 K ->
+  fadd K gamma delta <> f0 K ->
+  fadd K (fadd K alpha beta) (fadd K gamma delta) <> f0 K ->
+  fadd K (f1 K) (f1 K) <> f0 K ->
+  forall (A B C D : axis -> F) (c1 c2 c3 c4 : Shell.comp) (s : F),
+  SPoly.peval K (R4c K alpha beta gamma delta A B C D c1 c2 c3 c4) s = M4prod K alpha beta gamma delta A B C D s c1 c2 c3 c4.
+Proof. exact (@R4c_eval). Qed.
+Print Assumptions C12_rotation3_eri_R4c_eval.
+
+(* the summand of TwoElecP.two_elec_correct is eri_quartet_spec (R4 = R4c at the components of the entry) *)
+Theorem C12_rotation3_eri_summand_is_spec :
+  forall (F : Type) (K : Fops F) (s1 s2 s3 s4 : Shell.shell F) (i1 i2 i3 i4 : nat) (alpha beta gamma delta : F),
+  SPoly.Phi K
+    (eri_base K (Shell.s_x s1) (Shell.s_y s1) (Shell.s_z s1) (Shell.s_x s2) (Shell.s_y s2) (Shell.s_z s2) 
+       (Shell.s_x s3) (Shell.s_y s3) (Shell.s_z s3) (Shell.s_x s4) (Shell.s_y s4) (Shell.s_z s4) alpha beta gamma delta) 0
+    (R4 K s1 s2 s3 s4 i1 i2 i3 i4 alpha beta gamma delta) =
+  eri_quartet_spec K alpha beta gamma delta (RotationMoreP.centre s1) (RotationMoreP.centre s2) 
+    (RotationMoreP.centre s3) (RotationMoreP.centre s4) (List.nth i1 (Shell.comps_of s1) (0, 0, 0))
+    (List.nth i2 (Shell.comps_of s2) (0, 0, 0)) (List.nth i3 (Shell.comps_of s3) (0, 0, 0))
+    (List.nth i4 (Shell.comps_of s4) (0, 0, 0)).
+Proof. exact (@two_elec_summand_is_spec). Qed.
+Print Assumptions C12_rotation3_eri_summand_is_spec.
+
+(* through Phi_m of ANY sequence (Phi_unique, characteristic 0) *)
+Theorem C12_rotation3_eri_Phi_covariant :
+  forall (F : Type) (K : Fops F),
+  is_field K ->
+  forall alpha beta gamma delta : F,
+  fadd K alpha beta <> f0 K ->
+  fadd K gamma delta <> f0 K ->
+  fadd K (fadd K alpha beta) (fadd K gamma delta) <> f0 K ->
+  fadd K (f1 K) (f1 K) <> f0 K ->
+  (forall n : nat, ofnat K (S n) <> f0 K) ->
+  forall (R : mat) (A B C D : axis -> F) (a b c d : Shell.comp) (bet : nat -> F) (m : nat),
+  orth_rows K (transpose R) ->
+  Jsum K
+    (fun a' : mon =>
+     Jsum K
+       (fun b' : mon =>
+        Jsum K
+          (fun c' : mon =>
+           Jsum K
+             (fun d' : mon =>
+              SPoly.Phi K bet m
+                (R4c K alpha beta gamma delta (RotationMoreP.rotv K R A) (RotationMoreP.rotv K R B)
+                   (RotationMoreP.rotv K R C) (RotationMoreP.rotv K R D) a' b' c' d')) (subst_mon K (transpose R) d))
+          (subst_mon K (transpose R) c)) (subst_mon K (transpose R) b)) (subst_mon K (transpose R) a) =
+  SPoly.Phi K bet m (R4c K alpha beta gamma delta A B C D a b c d).
+Proof. exact (@Phi_R4c_rotation_covariant). Qed.
+Print Assumptions C12_rotation3_eri_Phi_covariant.
+
+(* prefactor and Boys argument depend on |A-B|^2, |C-D|^2, |P-Q|^2 only *)
+Theorem C12_rotation3_eri_base_invariant :
+  forall (F : Type) (K : Fops F),
+  is_field K ->
+  forall alpha beta gamma delta : F,
+  fadd K alpha beta <> f0 K ->
+  fadd K gamma delta <> f0 K ->
+  forall (R : mat) (A B C D : axis -> F) (m : nat),
+  orth_rows K (transpose R) ->
+  eri_base_v K alpha beta gamma delta (RotationMoreP.rotv K R A) (RotationMoreP.rotv K R B) (RotationMoreP.rotv K R C)
+    (RotationMoreP.rotv K R D) m = eri_base_v K alpha beta gamma delta A B C D m.
+Proof. exact (@eri_base_rot). Qed.
+Print Assumptions C12_rotation3_eri_base_invariant.
+
+(* GENERAL ROTATIONS, electron repulsion of four primitives at specification level *)
+Theorem C12_rotation3_eri_spec :
+  forall (F : Type) (K : Fops F),
+  is_field K ->
+  forall alpha beta gamma delta : F,
+  fadd K alpha beta <> f0 K ->
+  fadd K gamma delta <> f0 K ->
+  fadd K (fadd K alpha beta) (fadd K gamma delta) <> f0 K ->
+  fadd K (f1 K) (f1 K) <> f0 K ->
+  (forall n : nat, ofnat K (S n) <> f0 K) ->
+  forall (R : mat) (A B C D : axis -> F) (a b c d : Shell.comp),
+  orth_rows K (transpose R) ->
+  Jsum K
+    (fun a' : mon =>
+     Jsum K
+       (fun b' : mon =>
+        Jsum K
+          (fun c' : mon =>
+           Jsum K
+             (fun d' : mon =>
+              eri_quartet_spec K alpha beta gamma delta (RotationMoreP.rotv K R A) (RotationMoreP.rotv K R B)
+                (RotationMoreP.rotv K R C) (RotationMoreP.rotv K R D) a' b' c' d') (subst_mon K (transpose R) d))
+          (subst_mon K (transpose R) c)) (subst_mon K (transpose R) b)) (subst_mon K (transpose R) a) =
+  eri_quartet_spec K alpha beta gamma delta A B C D a b c d.
+Proof. exact (@eri_spec_rotation_covariant). Qed.
+Print Assumptions C12_rotation3_eri_spec.
+
+(* the same in the vocabulary of RigidP: mat3, rot_shell, rot_expand *)
+Theorem C12_rotation3_eri_spec_shells :
+  forall (F : Type) (K : Fops F),
+  is_field K ->
+  forall (R : RigidP.mat3) (s1 s2 s3 s4 : Shell.shell F) (alpha beta gamma delta : F) (a b c d : Shell.comp),
+  RigidP.orthogonal K R ->
+  fadd K alpha beta <> f0 K ->
+  fadd K gamma delta <> f0 K ->
+  fadd K (fadd K alpha beta) (fadd K gamma delta) <> f0 K ->
+  fadd K (f1 K) (f1 K) <> f0 K ->
+  (forall n : nat, ofnat K (S n) <> f0 K) ->
+  Jsum K
+    (fun a' : mon =>
+     Jsum K
+       (fun b' : mon =>
+        Jsum K
+          (fun c' : mon =>
+           Jsum K
+             (fun d' : mon =>
+              eri_quartet_spec K alpha beta gamma delta (RotationMoreP.centre (RigidP.rot_shell K R s1))
+                (RotationMoreP.centre (RigidP.rot_shell K R s2)) (RotationMoreP.centre (RigidP.rot_shell K R s3))
+                (RotationMoreP.centre (RigidP.rot_shell K R s4)) a' b' c' d') (RotationP.rot_expand K R d))
+          (RotationP.rot_expand K R c)) (RotationP.rot_expand K R b)) (RotationP.rot_expand K R a) =
+  eri_quartet_spec K alpha beta gamma delta (RotationMoreP.centre s1) (RotationMoreP.centre s2) 
+    (RotationMoreP.centre s3) (RotationMoreP.centre s4) a b c d.
+Proof. exact (@eri_spec_rotation_covariant_shells). Qed.
+Print Assumptions C12_rotation3_eri_spec_shells.
+
+(* EVERY ENTRY of ElectronRepulsionIntegral.construct_array_contraction (the model's eri_block): Cartesian shells in
+   the default component order, any l1..l4, exponents, generalized contractions; proper and improper R *)
+Theorem C12_rotation3_eri_block :
+  forall (F : Type) (K : Fops F), is_field K ->
+  (forall x : F, fapx K x = x) -> (forall n : nat, ofnat K (S n) <> f0 K) -> (forall c, dfnorm K c <> f0 K) ->
+  forall R, orthogonal K R -> forall l1 l2 l3 l4, exists M1 M2 M3 M4 : comp -> comp -> F,
+    mono_rep K R l1 M1 /\ mono_rep K R l2 M2 /\ mono_rep K R l3 M3 /\ mono_rep K R l4 M4 /\
+    forall s1 s2 s3 s4 : shell F,
+      s_l s1 = l1 -> s_l s2 = l2 -> s_l s3 = l3 -> s_l s4 = l4 ->
+      s_comps s1 = [] -> s_comps s2 = [] -> s_comps s3 = [] -> s_comps s4 = [] ->
+      (forall alpha beta, In alpha (s_exps s1) -> In beta (s_exps s2) -> fadd K alpha beta <> f0 K) ->
+      (forall gamma delta, In gamma (s_exps s3) -> In delta (s_exps s4) -> fadd K gamma delta <> f0 K) ->
+      (forall alpha beta gamma delta, In alpha (s_exps s1) -> In beta (s_exps s2) ->
+         In gamma (s_exps s3) -> In delta (s_exps s4) -> fadd K (fadd K alpha beta) (fadd K gamma delta) <> f0 K) ->
+      forall m1 m2 m3 m4 j1 j2 j3 j4,
+      (m1 < nseg s1)%nat -> (m2 < nseg s2)%nat -> (m3 < nseg s3)%nat -> (m4 < nseg s4)%nat ->
+      (j1 < length (default_comps l1))%nat -> (j2 < length (default_comps l2))%nat ->
+      (j3 < length (default_comps l3))%nat -> (j4 < length (default_comps l4))%nat ->
+      let cmp l i := nth i (default_comps l) (0, 0, 0)%nat in
+      fmul K (fmul K (fmul K (fmul K (dfnorm K (cmp l1 j1)) (dfnorm K (cmp l2 j2))) (dfnorm K (cmp l3 j3)))
+                     (dfnorm K (cmp l4 j4)))
+        (nth j4 (nth m4 (nth j3 (nth m3 (nth j2 (nth m2 (nth j1 (nth m1 (eri_block K s1 s2 s3 s4)
+            []) []) []) []) []) []) []) (f0 K))
+      = FNum.fsum K (map (fun i1 => FNum.fsum K (map (fun i2 => FNum.fsum K (map (fun i3 => FNum.fsum K (map (fun i4 =>
+          fmul K (fmul K (fmul K (fmul K (M1 (cmp l1 i1) (cmp l1 j1)) (M2 (cmp l2 i2) (cmp l2 j2)))
+                                 (M3 (cmp l3 i3) (cmp l3 j3))) (M4 (cmp l4 i4) (cmp l4 j4)))
+            (fmul K (fmul K (fmul K (fmul K (dfnorm K (cmp l1 i1)) (dfnorm K (cmp l2 i2))) (dfnorm K (cmp l3 i3)))
+                            (dfnorm K (cmp l4 i4)))
+               (nth i4 (nth m4 (nth i3 (nth m3 (nth i2 (nth m2 (nth i1 (nth m1
+                   (eri_block K (rot_shell K R s1) (rot_shell K R s2) (rot_shell K R s3) (rot_shell K R s4))
+                   []) []) []) []) []) []) []) (f0 K))))
+          (seq 0 (length (default_comps l4))))) (seq 0 (length (default_comps l3)))))
+          (seq 0 (length (default_comps l2))))) (seq 0 (length (default_comps l1)))).
+Proof. exact (@eri_block_rotation_law). Qed.
+Print Assumptions C12_rotation3_eri_block.
+
+Theorem C12_rotation3_eri_hypotheses_satisfiable :
+  exists (F : Type) (K : Fops F) (R1 R2 : @mat3 F) (alpha beta gamma delta : F),
+    is_field K /\ orthogonal K R1 /\ orthogonal K R2
+    /\ fadd K alpha beta <> f0 K /\ fadd K gamma delta <> f0 K
+    /\ fadd K (fadd K alpha beta) (fadd K gamma delta) <> f0 K /\ fadd K (f1 K) (f1 K) <> f0 K
+    /\ (forall n, ofnat K (S n) <> f0 K).
+Proof. exact eri_rotation_hypotheses_satisfiable. Qed.
+Print Assumptions C12_rotation3_eri_hypotheses_satisfiable.
+
+Theorem C12_rotation3_eri_block_hypotheses_satisfiable :
+  exists (F : Type) (K : Fops F) (R1 R2 : @mat3 F) (s1 s2 s3 s4 : shell F),
+    is_field K /\ (forall x, fapx K x = x) /\ (forall n, ofnat K (S n) <> f0 K) /\ (forall c, dfnorm K c <> f0 K)
+    /\ orthogonal K R1 /\ orthogonal K R2
+    /\ s_comps s1 = [] /\ s_comps s2 = [] /\ s_comps s3 = [] /\ s_comps s4 = []
+    /\ (forall a b, In a (s_exps s1) -> In b (s_exps s2) -> fadd K a b <> f0 K)
+    /\ (forall g d, In g (s_exps s3) -> In d (s_exps s4) -> fadd K g d <> f0 K)
+    /\ (forall a b g d, In a (s_exps s1) -> In b (s_exps s2) -> In g (s_exps s3) -> In d (s_exps s4) ->
+          fadd K (fadd K a b) (fadd K g d) <> f0 K).
+Proof. exact eri_block_law_hypotheses_satisfiable. Qed.
+Print Assumptions C12_rotation3_eri_block_hypotheses_satisfiable.
